@@ -31,6 +31,7 @@ type actRes struct {
 	Hex   string   `json:"hex,omitempty"`
 	Items []actRes `json:"items,omitempty"` // drain: the successive Read results (consecutive errors collapsed)
 	Err   string   `json:"err,omitempty"`   // error text, diagnostics only
+	N     int      `json:"n,omitempty"`     // raw: bytes the transport accepted when the Write failed
 }
 
 type scriptScn struct {
@@ -312,13 +313,34 @@ func execScript(s *scriptScn) *scriptObs {
 		case "trunkclose":
 			recs[side].Conn.Close()
 			r = actRes{Kind: "ok"}
+		case "await":
+			// the side's Mux has to close its trunk on its own (reader failure, queue overflow,
+			// failing Write): wait for it, so that what follows does not race with its reader
+			select {
+			case <-recs[side].closedC:
+				r = actRes{Kind: "ok"}
+			case <-time.After(opBound):
+				r = actRes{Kind: "timeout", Err: "the Mux did not close its trunk"}
+			}
 		case "unblock":
 			muxes[side].Unblock()
 			r = actRes{Kind: "ok"}
 		case "raw":
 			b, _ := hex.DecodeString(a.Hex)
 			rc := recs[side]
-			r = bounded(func() actRes { return writeOnce(rc, b) })
+			r = bounded(func() actRes {
+				// a bare transport end: a failing Write may have delivered an initial part
+				n, err := rc.Write(b)
+				if err != nil {
+					x := classify(err)
+					x.N = n
+					return x
+				}
+				if n != len(b) {
+					return actRes{Kind: "err", Err: fmt.Sprintf("short write %d of %d without error", n, len(b)), N: n}
+				}
+				return actRes{Kind: "ok"}
+			})
 		case "listen":
 			// Open first: Listen wraps the very connection Open returns for the id
 			if c0, err := muxes[side].Open(multiplex.ConnID(a.ID)); err == nil {
